@@ -118,9 +118,9 @@ class FirstOrderFiniteDifference(Operator):
             Dmat = spdiags(diags, locs, N+1, N)
         elif (self.bc_type == 'periodic'):
             locs = [-1, 0]
-            Dmat = spdiags(diags, locs, N+1, N).tocsr()
-            Dmat[-1, 0] = 1
-            Dmat[0, -1] = -1
+            Dmat = spdiags(diags, locs, N, N).tolil()
+            Dmat[0, -1] += -1 # wrap-around difference (once)
+            Dmat = Dmat.tocsr()
         elif (self.bc_type == 'neumann'):
             locs = [0, 1]
             Dmat = spdiags(diags, locs, N-1, N)
@@ -182,11 +182,12 @@ class SecondOrderFiniteDifference(FirstOrderFiniteDifference):
             Dmat = spdiags(diags, locs, N+2, N)
         elif (self.bc_type == 'periodic'):
             locs = [-2, -1, 0]
-            Dmat = spdiags(diags, locs, N+2, N).tocsr()
-            Dmat[0, -2] = -1
-            Dmat[0:2, -1] = [2, -1]
-            Dmat[-2, 0] = -1
-            Dmat[-1, 0:2] = [2, -1]
+            Dmat = spdiags(diags, locs, N, N).tolil()
+            # wrap-around differences (each once)
+            Dmat[0, (N-2) % N] += -1
+            Dmat[0, N-1] += 2
+            Dmat[1 % N, N-1] += -1
+            Dmat = Dmat.tocsr()
         elif (self.bc_type == 'neumann'):
             locs = [0, 1, 2]
             Dmat = spdiags(diags, locs, N-2, N).tocsr()
